@@ -6,7 +6,8 @@ x an XL-BOMD evaluation x an optimiser run x calls that must raise).  The *refer
 process returns when the job is the first thing it does.  Histories are executed in ONE other new process each:
 random prefixes of other jobs (incl. failing calls and RNG consumption) with settings-dictionary / driver reuse or not,
 interleaved forward passes followed by a joint (or re-ordered) backward pass, one dictionary handed to a second
-molecule, thread counts 1..16.
+molecule, one MD engine / optimiser object (Basic, Langevin, XL_BOMD, KSA_XL_BOMD, Geometry_Optimization_SD) used for a
+second run, thread counts 1..16.
 
 Clauses
   * immediate repeat of a job in the same process                      => bitwise identical digest
@@ -28,9 +29,9 @@ from vlib import env, gen
 
 PROPERTY = "C15"
 RULE = ("case = one history executed in one new process: fresh (job twice), seq (1-8 random other jobs, reuse flags "
-        "none/dict/driver per step, then every step judged against the job's fresh-process result), interleave "
+        "none/dict/driver/engine per step, then every step judged against the job's fresh-process result), interleave "
         "(forwards of 2-4 differentiable jobs, then joint/fifo/lifo backward), dictreuse (one settings dict, two "
-        "molecules), threads (torch.set_num_threads 2,4,8,16,1 before the job); non-trivial when at least one step "
+        "molecules), enginereuse (one MD engine / optimiser object, consecutive runs on fresh Molecule objects), threads (torch.set_num_threads 2,4,8,16,1 before the job); non-trivial when at least one step "
         "was compared with a fresh-process reference; distinct by SHA-1 of the case")
 ASSUMPTIONS = ["float64 CPU", "the fresh-process reference of a job is computed once per check run and shared between "
                "cases through a scratch cache (it is deterministic: verified by the 'fresh' cases, which run it twice)",
@@ -40,9 +41,9 @@ ASSUMPTIONS = ["float64 CPU", "the fresh-process reference of a job is computed 
                "a reused driver object confronted with new elements may raise (loud rejection), per the maintainers' fix"]
 REQUIRED_MONITORS = ["fresh_processes", "immediate_repeats_compared", "steps_judged_after_history",
                      "dict_reuse_steps_judged", "driver_reuse_steps_judged", "interleave_jobs_judged",
-                     "thread_steps_judged", "raising_steps_judged"]
+                     "thread_steps_judged", "raising_steps_judged", "engine_reuse_steps_judged"]
 CASE_TIMEOUT = 1200.0
-BUDGET_S = {"quick": float(os.environ.get("VERIF_C15_BUDGET", 220)), "thorough": float(os.environ.get("VERIF_C15_BUDGET", 1700))}
+BUDGET_S = {"quick": float(os.environ.get("VERIF_C15_BUDGET", 230)), "thorough": float(os.environ.get("VERIF_C15_BUDGET", 1700))}
 MIN_NONTRIVIAL = 6
 CHILD_TIMEOUT = 600.0
 
@@ -68,13 +69,19 @@ def _rand_step(g, allow_raise=True):
         job = _SIG_A[int(g.integers(0, len(_SIG_A)))]
     else:
         job = _OK_JOBS[int(g.integers(0, len(_OK_JOBS)))]
-    return {"job": job, "reuse": ["none", "dict", "driver"][int(g.integers(0, 3))]}
+    modes = ["none", "dict", "engine"] if job in J.ENGINE_JOBS else ["none", "dict", "driver"]
+    return {"job": job, "reuse": modes[int(g.integers(0, 3))]}
+
+
+_ENGINE_PAIRS = [("md_xl_h2o", "md_xl_h2o_b"), ("md_ksa_h2o", "md_ksa_h2o_b"), ("md_bomd_h2o", "md_bomd_h2o_b"),
+                 ("md_lang_nh3", "md_lang_nh3_b"), ("opt_sd_h2o", "opt_sd_h2o_b"), ("md_xl_h2o", "md_xl_h2o"),
+                 ("md_ksa_h2o_b", "md_ksa_h2o"), ("md_xl_h2o_b", "md_xl_h2o")]
 
 
 def gen_cases(tier, seed):
     g = gen.rng("C15", tier)
     cases = []
-    nseq, nint, nthr = (14, 6, 4) if tier == "quick" else (260, 70, 30)
+    nseq, nint, nthr = (10, 5, 4) if tier == "quick" else (260, 70, 30)
     # --- interleavings (the tight-then-loose pair is always present)
     pairs = [(["g_am1_h2o_tight", "g_am1_nh3_loose"], "joint"), (["g_am1_h2o_tight", "g_pm6sp_h2s_sb1"], "fifo"),
              (["g_pm3_hcn_param", "g_am1_nh3_loose", "g_mndo_nh3_sb2"], "joint"),
@@ -101,6 +108,14 @@ def gen_cases(tier, seed):
     for a, b, mode in dr:
         cases.append({"kind": "dictreuse", "steps": [{"job": a, "reuse": mode}, {"job": b, "reuse": mode},
                                                       {"job": b, "reuse": mode}]})
+    # --- one MD engine / optimiser OBJECT used for two consecutive runs on fresh Molecule objects
+    ep = _ENGINE_PAIRS[:6] if tier == "quick" else _ENGINE_PAIRS + [(b, a) for a, b in _ENGINE_PAIRS[:5]]
+    for a, b in ep:
+        cases.append({"kind": "enginereuse", "steps": [{"job": a, "reuse": "engine"}, {"job": b, "reuse": "engine"}]})
+    if tier == "thorough":
+        for a, b in _ENGINE_PAIRS[:5]:
+            cases.append({"kind": "enginereuse", "steps": [{"job": a, "reuse": "engine"}, {"job": b, "reuse": "engine"},
+                                                          {"job": a, "reuse": "engine"}]})
     # --- thread counts
     tj = ["am1_c6h6", "am1_batch", "pm3_ch3oh_sp2", "g_am1_h2o_tight", "md_bomd_h2o"]
     for i in range(nthr):
@@ -112,16 +127,22 @@ def gen_cases(tier, seed):
         cases.append({"kind": "threads", "steps": st})
     # --- random histories
     for i in range(nseq):
-        n = int(g.integers(1, 9))
+        n = int(g.integers(1, 7 if tier == "quick" else 9))
         steps = [_rand_step(g) for _ in range(n)]
         target = _OK_JOBS[int(g.integers(0, len(_OK_JOBS)))]
-        steps.append({"job": target, "reuse": ["none", "dict", "driver"][int(g.integers(0, 3))]})
+        modes = ["none", "dict", "engine"] if target in J.ENGINE_JOBS else ["none", "dict", "driver"]
+        steps.append({"job": target, "reuse": modes[int(g.integers(0, 3))]})
         if g.random() < 0.5:
             steps.append({"job": target, "reuse": steps[-1]["reuse"]})  # immediate repeat after a history
         cases.append({"kind": "seq", "steps": steps})
     # --- every job fresh, twice (reference + immediate repeat); cheap, and they warm the shared reference cache
-    fresh = [{"kind": "fresh", "job": k} for k in J.JOBS]
-    return cases + fresh
+    # (first in the list: they fill the shared reference cache in parallel, so the histories only read it)
+    used = set(J.RAISE_JOBS)
+    for c in cases:
+        for st in c["steps"]:
+            used |= set(st.get("interleave", [])) | ({st["job"]} if "job" in st else set())
+    fresh = [{"kind": "fresh", "job": k} for k in J.JOBS if tier == "thorough" or k in used]
+    return fresh + cases
 
 
 # =========================================================================================
@@ -350,7 +371,9 @@ def run_case(case):
                 if threads_now != 1 or kind == "threads":
                     inc("thread_steps_judged")
                     cells.append("threads/%s" % threads_now)
-                if rr.get("driver_reused"):
+                if rr.get("engine_reused"):
+                    inc("engine_reuse_steps_judged")
+                elif rr.get("driver_reused"):
                     inc("driver_reuse_steps_judged")
                 elif rr.get("dict_reused"):
                     inc("dict_reuse_steps_judged")
